@@ -279,9 +279,9 @@ Proof.
   - unfold regenerate in HR. rewrite Ho in HR. injection HR as <- _ _. apply keeps_refl.
 Qed.
 
-Lemma keeps_follow : forall fuel s o s' res, follow fuel s o = (s', res) -> keeps s s'.
+Lemma keeps_follow : forall fuel s o lk s' res, follow fuel s o lk = (s', res) -> keeps s s'.
 Proof.
-  induction fuel as [|f IH]; intros s o s' res HF; simpl in HF; destruct (hget s o) as [ob|];
+  induction fuel as [|f IH]; intros s o lk s' res HF; simpl in HF; destruct (hget s o) as [ob|];
     try (injection HF as <- _; apply keeps_refl).
   - destruct (r_ref (o_rec ob)); injection HF as <- _; apply keeps_refl.
   - destruct (r_ref (o_rec ob)) as [t|]; [|injection HF as <- _; apply keeps_refl].
